@@ -47,6 +47,12 @@ def run(ctx):
     c12.r2_fresh_listener(ctx, ctx.prog.func(f'{N.KERN_IMP}.KernSpineImporter.import_token'))
     ctx.alias = {}
     # the default selection is "everything" in every call
+    # per cell, what is written depends on the spine selection and the category selection only (no other test may turn a
+    # token into a placeholder: a repeated signature, a first row, ...)
+    from .exporter_facts import RowGate, check_spine_gate, check_category_gate
+    gate_ = RowGate(ctx)
+    check_spine_gate(ctx, 'R10', gate_)
+    check_category_gate(ctx, 'R10', gate_)
     shared.effect_free(ctx, 'R9', [f'{N.PUBLIC}.dumps', f'{N.MAPPER}.valid'],
                        'the default export keeps every category: nothing an earlier call excluded may stay excluded')
     from .. import regen
